@@ -29,6 +29,12 @@ where
 {
     tracing::trace!("h11c_connect: channel={}", frame_channel);
     let target = ctx.read().await.target();
+    if let crate::context::TargetAddress::DomainPort(host, _) = &target {
+        // the request line is split on whitespace by the next hop
+        if host.bytes().any(|b| b <= 0x20 || b == 0x7f) {
+            bail!("target host can not be sent in a CONNECT request: {:?}", host);
+        }
+    }
     let feature = ctx.read().await.feature();
     match feature {
         Feature::TcpForward => {
